@@ -45,7 +45,10 @@ RULE = ("one case = one generated layout of one domain: sens (0-5 hwmon chips, e
 ASSUMPTIONS = [
     "hwmon/thermal/power_supply/cpufreq/topology attribute names and units transcribed from Documentation/hwmon/"
     "sysfs-interface, ABI/testing/sysfs-class-thermal, sysfs-class-power, admin-guide/pm/cpufreq, cputopology",
-    "every hwmon chip has a 'name' attribute next to its sensor files (statement is silent about chips without one)",
+    "every hwmon chip with fans has a 'name' attribute next to its sensor files; temperature-only chips may lack a readable "
+    "one (old drivers): the statement is silent about the key such a chip's sensors are reported under, so only the "
+    "entries of the named chips are decided (exactly their own sensors, nothing leaked from the nameless chip) and the "
+    "call must not fail",
     "a reading file is 'unreadable' when open()/read() fails with an OSError (EACCES at open, EIO/ENODATA at read, "
     "or the path is a directory); non-numeric *_input content is not generated (the kernel never prints it)",
     "non-numeric or unreadable threshold files count as missing thresholds",
@@ -128,6 +131,10 @@ def g_chip(rng, n, allow_link=True):
         chip["temps"].append(dict(i=i, input=g_input(rng, g_mdeg),
                                   label=rng.choice(TEMP_LABELS) if rng.random() < 0.6 else None,
                                   max=g_thresh(rng), crit=g_thresh(rng), noise=rng.random() < 0.4))
+    if chip["link"] is None and ntemp and rng.random() < 0.1:
+        # a chip whose 'name' attribute is missing or unreadable (temperature-only: see ASSUMPTIONS)
+        chip["name_st"] = rng.choice(["missing", "missing", "eacces", "eio"])
+        nfan = 0
     for i in sorted(rng.sample(range(1, 12), nfan)):
         chip["fans"].append(dict(i=i, input=g_input(rng, lambda r: r.choice([0, r.randrange(0, 12000)])),
                                  label=rng.choice(FAN_LABELS) if rng.random() < 0.5 else None,
@@ -224,7 +231,25 @@ def gen_bat(rng):
                 b["tte"] = rng.choice([0, rng.randrange(0, 900)])
         elif rr < 0.3:
             b["tte"] = rng.randrange(0, 900)
+        b["bad"] = {}
+        if rng.random() < 0.25:
+            # files that exist but cannot be read (battery being removed: ENODEV; firmware hiccup: EIO/ENODATA; policy: EACCES)
+            if fam == "both":
+                present = [["energy_now", "energy_full", "power_now"]]       # one whole family (units are not mixed)
+            else:
+                f0 = {"energy": "energy", "charge": "charge"}.get(fam)
+                present = ([[f0 + "_now"], [f0 + "_full"]] if f0 else []) + \
+                          ([[b["rate_file"]]] if b["rate_file"] not in (None, "both") else []) + \
+                          ([["time_to_empty_now"]] if b["tte"] is not None else []) + \
+                          ([["capacity"]] if b["capacity"] is not None else []) + \
+                          ([["status"]] if b["status"] is not None else [])
+            for grp in rng.sample(present, min(len(present), rng.choice([1, 1, 2, 3]))):
+                st = rng.choice(["eacces", "eio", "enodata", "enodev"])
+                for f in grp:
+                    b["bad"][f] = st
         case["bats"].append(b)
+    if case["ac"] and case["ac"]["name"] in ("AC0", "AC") and rng.random() < 0.15:
+        case["ac"]["bad"] = rng.choice(["eacces", "eio", "enodev"])
     return case
 
 
@@ -361,7 +386,7 @@ def render_chip(t, chip, area, prefix):
     """prefix = directory of the hwmonN dir relative to the area"""
     d = prefix + ("/device" if chip["nest"] == "device" else "")
     t.mkdir(area, prefix)
-    t.w(area, d + "/name", chip["name"] + "\n")
+    t.reading(area, d + "/name", chip.get("name_st", "ok"), chip["name"] + "\n")
     if chip["nest"] == "device":
         t.w(area, prefix + "/uevent", "")
     if chip["noise"]:
@@ -463,7 +488,7 @@ def render_bat(t, case):
     t.mkdir("power_supply")
     if case["ac"]:
         t.w("power_supply", case["ac"]["name"] + "/type", "Mains\n")
-        t.w("power_supply", case["ac"]["name"] + "/online", f"{case['ac']['online']}\n")
+        t.reading("power_supply", case["ac"]["name"] + "/online", case["ac"].get("bad", "ok"), f"{case['ac']['online']}\n")
     for o in case["others"]:
         t.w("power_supply", o + "/type", "USB\n")
         t.w("power_supply", o + "/online", "1\n")
@@ -474,23 +499,27 @@ def render_bat(t, case):
         t.w("power_supply", d + "/technology", "Li-ion\n")
         t.w("power_supply", d + "/voltage_now", "11400000\n")
         fams = {"energy": ["energy"], "charge": ["charge"], "both": ["energy", "charge"], "capacity": []}[b["fam"]]
+        bad = b.get("bad", {})
+
+        def bw(fname, text):
+            t.reading("power_supply", f"{d}/{fname}", bad.get(fname, "ok"), text)
         for f in fams:
             # 'both': the charge_* family is the energy_* family in other units (same ratios)
             k = 1 if f == "energy" or b["fam"] != "both" else 7
-            t.w("power_supply", f"{d}/{f}_now", f"{b['now'] * k}\n")
-            t.w("power_supply", f"{d}/{f}_full", f"{b['full'] * k}\n")
+            bw(f"{f}_now", f"{b['now'] * k}\n")
+            bw(f"{f}_full", f"{b['full'] * k}\n")
             t.w("power_supply", f"{d}/{f}_full_design", f"{b['full_design'] * k}\n")
         if b["rate_file"] == "both":
-            t.w("power_supply", d + "/power_now", f"{b['rate']}\n")
-            t.w("power_supply", d + "/current_now", f"{b['rate'] * 7}\n")
+            bw("power_now", f"{b['rate']}\n")
+            bw("current_now", f"{b['rate'] * 7}\n")
         elif b["rate_file"]:
-            t.w("power_supply", f"{d}/{b['rate_file']}", f"{b['rate']}\n")
+            bw(b["rate_file"], f"{b['rate']}\n")
         if b["tte"] is not None:
-            t.w("power_supply", d + "/time_to_empty_now", f"{b['tte']}\n")
+            bw("time_to_empty_now", f"{b['tte']}\n")
         if b["capacity"] is not None:
-            t.w("power_supply", d + "/capacity", f"{b['capacity']}\n")
+            bw("capacity", f"{b['capacity']}\n")
         if b["status"] is not None:
-            t.w("power_supply", d + "/status", b["status"] + "\n")
+            bw("status", b["status"] + "\n")
 
 
 def cpuinfo_x86(cpus, mhz=None, pkg=None, ncores=None, coreid=None):
@@ -723,6 +752,8 @@ def merge(*dicts):
 def exp_temps_of(chips):
     out = {}
     for chip in chips:
+        if chip.get("name_st", "ok") != "ok":
+            continue
         rows = exp_chip_temps(chip)
         if rows:
             out.setdefault(chip["name"], []).extend(rows)
@@ -863,12 +894,45 @@ def compare_fans(got, case, ctx):
     return [("fans_wrong", f"got {norm} want {want} {ctx}")], n
 
 
+def effective(b):
+    """the battery as its *readable* files describe it (an unreadable file = a missing one)"""
+    bad = b.get("bad") or {}
+    if not bad:
+        return b
+    e = dict(b)
+    fam = b["fam"]
+    if fam == "both":
+        if "energy_now" in bad:                 # whole energy family unreadable: the charge family tells the same story
+            e["fam"] = "charge"
+            e["rate_file"] = "current_now" if b["rate_file"] else None
+        return e
+    if "status" in bad:
+        e["status"] = None
+    if "capacity" in bad:
+        e["capacity"] = None
+    if "time_to_empty_now" in bad:
+        e["tte"] = None
+    if b["rate_file"] in bad:
+        e["rate_file"], e["rate"] = None, None
+    if fam in ("energy", "charge"):
+        now_ok, full_ok = (fam + "_now") not in bad, (fam + "_full") not in bad
+        if not (now_ok and full_ok):
+            e["percent_from_capacity"] = True
+        if not now_ok:
+            e["rate_file"], e["rate"] = None, None      # nothing to divide
+    return e
+
+
 def bat_expect(b, ac, ps):
-    """-> (percent: Fraction, set of acceptable power_plugged values)"""
-    if b["fam"] != "capacity":
+    """-> (percent: Fraction | None = no result possible, set of acceptable power_plugged values)"""
+    if ac is not None and ac.get("bad"):
+        ac = None
+    if b["fam"] != "capacity" and not b.get("percent_from_capacity"):
         percent = Fraction(b["now"], b["full"]) * 100
-    else:
+    elif b["capacity"] is not None:
         percent = Fraction(b["capacity"])       # only the kernel's own percentage is exposed
+    else:
+        percent = None
     by_status = {None: {None}, "Discharging": {False}, "Charging": {True}, "Full": {True},
                  "Not charging": {None, True}, "Unknown": {None}}[b["status"]]
     if ac is None:
@@ -903,7 +967,14 @@ def compare_battery(got, case, ps, ctx):
         return [("battery_reported_without_battery", f"got {got!r} {ctx}")]
     per_bat = []
     for b in case["bats"]:
+        b = effective(b)
         percent, plugged = bat_expect(b, case["ac"], ps)
+        if percent is None:
+            # neither now/full nor the kernel's own percentage is readable: nothing to report for this battery
+            if got is None:
+                return []
+            per_bat.append([("battery_reported_without_readable_figures", f"{b['name']}: got {got!r}")])
+            continue
         if got is None:
             per_bat.append([("battery_none_with_battery", f"{b['name']}: got None want percent {float(percent)!r}")])
             continue
@@ -1093,7 +1164,7 @@ def make_vk(vkernel, t, vproc):
     vk.mount("/vproc", vkernel.MemFS({k: vkernel.F(v.encode("latin-1")) for k, v in vproc.items()}))
     for area, prefix in SYS.items():
         vk.redirect(prefix, t.real(area))
-    codes = dict(eacces=errno.EACCES, eio=errno.EIO, enodata=errno.ENODATA, ebusy=errno.EBUSY)
+    codes = dict(eacces=errno.EACCES, eio=errno.EIO, enodata=errno.ENODATA, ebusy=errno.EBUSY, enodev=errno.ENODEV)
     open_faults = {}
     for path, st in t.faults.items():
         if st == "eacces":
@@ -1221,7 +1292,19 @@ def evaluate(case, obs, ps, acc):
             thermal = True
         got, ok = val("temps")
         c_viols = []
+        nameless = dom == "sens" and any(c.get("name_st", "ok") != "ok" for c in case["chips"])
+        if nameless:
+            acc.count("nameless_chip_cases")
+
+        def known_names(g):
+            # with a chip lacking a readable 'name' the statement does not say under which key (if any) its sensors
+            # appear: only the entries of the named chips are decided - nothing of the nameless chip may leak into them
+            if not (nameless and isinstance(g, dict)):
+                return g
+            names = set().union(*[set(c) for c in cands])
+            return {k: v for k, v in g.items() if k in names}
         if ok:
+            got = known_names(got)
             c_viols, n = best_candidate(got, cands, False, ctx, thermal)
             acc.count("thermal_zones_compared" if thermal else "temp_sensors_compared", n)
             if not c_viols and bad_inputs(case):
@@ -1231,6 +1314,7 @@ def evaluate(case, obs, ps, acc):
             viols.extend(c_viols)
         gotf, okf = val("temps_f")
         if okf and ok and not c_viols:
+            gotf = known_names(gotf)
             f_viols, n = best_candidate(gotf, cands, True, ctx, thermal)
             acc.count("fahrenheit_values_compared", n)
             viols.extend(f_viols)
@@ -1368,8 +1452,9 @@ def ns_eligible(case):
     if case["dom"] == "sens":
         sens = [s for c in case["chips"] + case["platform_only"] for s in c["temps"] + c["fans"]]
         return (all(s["input"]["st"] in plain for s in sens) and all(z["temp"]["st"] in plain for z in case["zones"])
+                and all(c.get("name_st", "ok") in plain for c in case["chips"])
                 and all(s[k]["st"] != "eacces" for s in sens if "max" in s for k in ("max", "crit")))
-    return case["dom"] == "bat"
+    return case["dom"] == "bat" and not any(b.get("bad") for b in case["bats"]) and not (case["ac"] or {}).get("bad")
 
 
 def ser_obs(obs):
